@@ -367,6 +367,9 @@ func recPanic(r any, stack string) *panicRec {
 func safeCall(f func() (any, error)) (resp any, err error, pan *panicRec) {
 	defer func() {
 		if r := recover(); r != nil {
+			if vsched.Aborting() {
+				panic(r) // the execution is being torn down (the call never returned): not a handler panic
+			}
 			pan = recPanic(r, string(debug.Stack()))
 		}
 	}()
